@@ -88,6 +88,7 @@ int main(int argc, char **argv)
 		const char *op = kv_str(&kv, "op", "rand_bytes"); long seed = kv_int(&kv, "seed", 1), failat = kv_int(&kv, "failat", 0), reps = kv_int(&kv, "reps", 1);
 		long high = kv_int(&kv, "high", 0);
 		ent_tag("op"); ent_seed((uint64_t)seed); ent_fail_at(failat); ent_high_for(high); ent_log(reps <= 4 && high <= 4);
+		ent_fail_from(kv_int(&kv, "failfrom", 0), (int)kv_int(&kv, "errno", 0));
 		{ size_t egl = 0; uint8_t *eg = kv_hex(&kv, "edge", &egl); if (egl == 32) ent_push32(eg); }      // edge=<64 hex>: the first 32-byte draw delivers exactly these bytes
 		for (long r = 0; r < reps; r++) {
 			uint8_t *out = calloc(1, 16384), eph[128]; size_t ol = 0, el = 0; long d0 = ent_draws();
@@ -102,7 +103,7 @@ int main(int argc, char **argv)
 			vt_end();
 			free(out);
 		}
-		ent_fail_at(0);
+		ent_fail_at(0); ent_fail_from(0, 0);
 		vt_begin("Reset"); vt_end();
 	}
 	vt_close(); return 0;
